@@ -39,6 +39,17 @@ PROPS = {
         assumptions=["'every composition': theorems cover the traced pool (7 compositions incl. nesting/repetition/commutative members; 2 of them in the thorough tier); further compositions only by the harness pool",
                      "matrix()/hat() of Bundles are not traced (Eigen-vector members have no class API); the direct-product matrix form follows from C01 per part"],
     ),
+    "C17": dict(
+        tracer_units=["Conv", "SO2", "SO3", "SE3", "SEK3_1", "SEK3_2", "Galilei"],
+        coq_targets=["Props/Properties_C17.vo", "Props/Properties_C17b.vo"],
+        props_files=["Props/Properties_C17.v", "Props/Properties_C17b.v"],
+        cone=["Proofs/C17_*.v", "Props/Properties_C17*.v", "Base/Atan2.v"],
+        harnesses=[dict(name="h_c17")],
+        trusted_base=TB_COMMON + ["Base/GenPrelude.v: definition of atan2 over R (no signed zeros); Base/Atan2.v its proved properties",
+                                  "harness/h_c17.cpp: relations/conversions on the real library incl. signed zeros, +-1, +-pi/2 and neighbouring values, Euler angles"],
+        assumptions=["signed zeros do not exist in the R-model: inputs differing only in the sign of zero are covered by the harness stream only",
+                     "Euler-angle conversion (Eigen::eulerAngles) and SE3(isometry) are covered by the harness only; SE_K_3<2> exp/log embedding is proved on the closed-form paths (via C02) and by harness elsewhere"],
+    ),
     "C03": dict(
         tracer_units=GROUP_UNITS,
         coq_targets=["Props/Properties_C03.vo"],
@@ -51,6 +62,12 @@ PROPS = {
 }
 
 MANIFEST_TEXT = {
+    "C17": dict(
+        technique="Coq proof over the regenerated model (ring/field identities, path matching, a proved atan2 library, interval arithmetic for the binary64 value of pi) + translator validation + harness on the real library incl. branch cuts and signed zeros",
+        text="Machine-checked for all elements: every traced operation of SE_K_3<1> is the same relation as SE3's (path by path); under the embedding (p1,p2,q)->(v,p,tau=0,q) SE_K_3<2> composition/inverse/identity/Ad/ad/dr_exp/dr_expinv are Galilei's restricted to the zero-time subgroup/subalgebra and exp agrees on the closed-form paths; lift_so3 gives a valid canonical SO3 element with matrix diag(mat g,1) and project_so2 inverts it; C1 = scaling * so2 with scaling>0; rot_x/y/z(t) are valid, canonical and equal the axis rotation matrices for all t; the quaternion constructor normalises, picks q_w>=0 and keeps the direction; angle() in (-pi,pi] reproduces the element, angle_cw() in [-2pi,0] and angle_ccw() in [0,2pi], all congruent mod 2pi (with the code's binary64 pi: slack 2e-15). The model is regenerated every run.",
+        note="Trusted: Coq kernel, Coquelicot, Coq-Interval (two numeric facts about pi); translator (validated each run); R has no signed zero (harness covers). A defect found by this check (angle_cw returned +pi at the half turn) was repaired in /repo (fix: d2551ca).",
+        design_ref="DESIGN.md section 5 C17",
+    ),
     "C06": dict(
         technique="Coq proof over the regenerated model: traced Bundle operation = concatenation / block-diagonal / stacked-Hessian arrangement of the separately traced part operations on the part<i>() segments (path-matching + reflexivity); Eigen vectors and scalars proved additive; translator validation; bundle-vs-parts harness",
         text="For a pool of Bundle compositions (SO3xT3, T2xSE2, SE2xSO3xT1xSO2, SO3xSO3, SO2xT2, (SO2xT2)xSE3, C1xSE3) traced through the generic LieGroup interface: machine-checked that composition/inverse/log/exp/identity equal the concatenation of the same traced operation of each part on its segment (on every path, paths matched), Ad/ad/dr_exp/dr_expinv equal the block-diagonal arrangement, d2r_exp/d2r_expinv equal the documented stacked-Hessian placement, and part<i>() views the segment at the prefix sum of the RepSizes. For Eigen::Vector<N> (N=1..4), VectorX (n=0,1,3,5) and the scalar type: composition = +, inverse = -, exp = log = id, Ad = dr_exp = dr_expinv = I, ad = 0, Hessians = 0. Offsets are baked into the regenerated model, so a wrong prefix sum or block placement breaks reflexivity.",
